@@ -11,7 +11,7 @@
     0 = "", 3 = "!bad" and 12 = "htlt!x" (98 = any other invalid string) are invalid; 1 = "stake" (the bond denom,
     held by every actor, a registered token); 2 = "tcoin" (valid, nobody holds it, not a registered
     token); 10, 11 = "htltbnb", "htltinc" (the only classes acceptable as HTLC assets); 99 = any
-    other valid denom.  Among the valid classes that can occur together in one coin set (1, 2) the
+    other valid denom; 4 = "btc" (valid, held by everybody); 5 = "feetok" (symbol of an issued token of scale 6).  Among the valid classes that can occur together in one coin set (1, 2) the
     numeric order is the lexicographic order of the strings. *)
 From Irismod Require Export Base.Prelude Base.Dec.
 
@@ -659,8 +659,12 @@ Definition validate_tk (p : tk_params) : outcome :=
   else Ok
   end end end.
 
+(** the symbols registered in the token module: 1 = the native token (scale 0), 5 = "feetok", a token of
+    scale 6 that the driver issues before the parameters are touched *)
+Definition tk_registered (d : Z) : bool := (d =? 1) || (d =? 5).
+
 (** token InitGenesis additionally requires the fee denom to be a registered symbol *)
-Definition update_tk := update_with validate_tk (fun p => c_denom (tk_fee p) =? 1).
+Definition update_tk := update_with validate_tk (fun p => tk_registered (c_denom (tk_fee p))).
 
 Inductive tk_op :=
 | TkIssue (factor scale bal : Z)   (* MsgIssueToken: fee factor of the symbol (decimal), scale of the fee token,
@@ -684,7 +688,7 @@ Definition tk_issue_fee (p : tk_params) (F : Z) : res + Z :=
         else
           let fee := if P18 <? q then dec_truncate_int q else 1 in
           if negb (denom_valid (c_denom (tk_fee p))) then inl (Panic 504)   (* NewCoin: invalid denom *)
-          else if negb (c_denom (tk_fee p) =? 1) then inl Reject            (* token does not exist *)
+          else if negb (tk_registered (c_denom (tk_fee p))) then inl Reject (* token does not exist *)
           else inr fee
   end.
 
